@@ -46,15 +46,38 @@ def notification(P, R):
             dv = dv or s.ev['lhs']['name']
     node, newv = ls.params[0], ls.params[1]
 
+    def resolve(e, depth=0):
+        """a local that holds a count (`const unsigned new_used = new_value->used`) stands for that count"""
+        while is_var(e) and e.get('sc') == 'local' and depth < 3 and e['name'] != dv:
+            d = ls.single_def(e['name'])
+            if not d or not isinstance(d[1], dict):
+                break
+            e = d[1]
+            depth += 1
+        return e
+
+    def owner(e):
+        """the parameter a `...used` expression belongs to, through locals that alias `&param->value`"""
+        rv_ = root_var(e)
+        seen = 0
+        while rv_ is not None and rv_['name'] not in (node, newv) and seen < 3:
+            d = ls.single_def(rv_['name'])
+            if not d or not isinstance(d[1], dict):
+                break
+            rv_ = root_var(d[1])
+            seen += 1
+        return rv_['name'] if rv_ is not None else None
+
     def atoms(r):
         l, op, rr = r
         out = []
         if is_var(rr, dv) and not is_var(l, dv) and op in ('==', '!='):
             l, rr = rr, l          # `used == differ` is `differ == used`
         if is_var(l, dv) and op in ('==', '!='):
-            if on_path(rr, 'used') and root_var(rr) is not None and root_var(rr)['name'] == newv:
+            rr = resolve(rr)
+            if on_path(rr, 'used') and owner(rr) == newv:
                 out.append(('A', op == '=='))
-            if on_path(rr, 'used') and root_var(rr) is not None and root_var(rr)['name'] == node:
+            if on_path(rr, 'used') and owner(rr) == node:
                 out.append(('B', op == '=='))
         return out
 
